@@ -276,7 +276,7 @@ func runC12(res *Result, tier string, rnd *Rand, replay string) {
 	logger.SetLevel(logrus.PanicLevel)
 	n := 80
 	if tier == "thorough" {
-		n = 1500
+		n = 600
 	}
 	for i := 0; i < n; i++ {
 		r := rnd.Fork()
